@@ -169,7 +169,8 @@ class FcpV2:
 
     def get_protocols(self) -> List[str]:
         """Get list of unique protocol names."""
-        return list(set([impl.protocol for impl in self.impls]))
+        # in order of first use: a set would order them by string hash
+        return list(dict.fromkeys(impl.protocol for impl in self.impls))
 
     def to_dict(self) -> Any:
         """Get the fcp AST as a python dictionary."""
